@@ -402,15 +402,47 @@ func rulesC16(c *Ctx) {
 		// supplied a schema, in whatever form (a *jsonschema.Schema, a map, raw JSON) — decided by evaluating the branch
 		// conditions under "*sfield != nil"
 		{
-			provided := sg.ReachUnder(func(e ast.Expr) tri {
-				if x, trueWhenNil, isNil := NilTest(e); isNil && derefOf(x, sf) {
-					if trueWhenNil {
-						return triFalse
-					}
-					return triTrue
+			// (case split on the nil-ness of a local taken from *sfield by type assertion — `provided, _ := (*sfield).(*Schema)` —
+			// so that a guard such as `*sfield == nil || provided != nil` and a later `if provided != nil` are read together)
+			var cand types.Object
+			for _, w := range Writes(ss.Body, false) {
+				as, isAs := w.Stmt.(*ast.AssignStmt)
+				if !isAs || len(as.Rhs) != 1 {
+					continue
 				}
-				return triUnknown
-			}, nil)
+				if ta, isTA := ast.Unparen(as.Rhs[0]).(*ast.TypeAssertExpr); isTA && derefOf(ta.X, sf) && ss.ObjOf(as.Lhs[0]) != nil {
+					cand = ss.ObjOf(as.Lhs[0])
+				}
+			}
+			provided := make([]bool, sg.N)
+			for _, candNil := range []tri{triTrue, triFalse} {
+				candNil := candNil
+				r := sg.ReachUnder(func(e ast.Expr) tri {
+					if x, trueWhenNil, isNil := NilTest(e); isNil {
+						if derefOf(x, sf) {
+							if trueWhenNil {
+								return triFalse
+							}
+							return triTrue
+						}
+						if cand != nil && ss.ObjOf(x) == cand {
+							if trueWhenNil {
+								return candNil
+							}
+							return triNot(candNil)
+						}
+					}
+					return triUnknown
+				}, nil)
+				for v := range r {
+					if r[v] && (cand != nil || candNil == triTrue) {
+						provided[v] = true
+					}
+				}
+				if cand == nil {
+					break
+				}
+			}
 			nT := 0
 			for _, fn := range []*types.Func{getT, setT} {
 				for _, call := range ss.CallsIn(ss.Body, fn, false) {
